@@ -259,8 +259,32 @@ def body_wiring(env):
                                 materials_extra=mats, core_len=0.05)
         with npshim.unpatched():
             r = dassh.Reactor(dassh.DASSH_Input(inp), path=os.path.join(d, 'out'), write_output=False)
+            # two real steps of the sweep: what an assembly reports as the coolant temperature of a pin at the new plane is the
+            # weighted mean of the *new-plane* temperatures of the subchannels around that pin (weights 1/6, 1/4, 1/6 by type)
+            r._data_setup()
+            r._data_open()
+            r.axial_step0()
+            stale = []
+            for i in (1, 2, 3):
+                r.axial_step(r.z[i], r.dz[i - 1], i, False)
+                for a, asm in enumerate(r.assemblies):
+                    reg = asm.rodded
+                    Tsc = np.asarray(reg.temp['coolant_int'], dtype=float)
+                    adj = np.asarray(reg.subchannel.pin_adj)
+                    w = np.array([1 / 6, 1 / 4, 1 / 6])[np.asarray(reg.subchannel.type[:len(Tsc)], dtype=int)]
+                    want = np.array([sum(Tsc[j] * w[j] for j in adj[p_] if j >= 0) / sum(w[j] for j in adj[p_] if j >= 0) for p_ in range(reg.n_pin)])
+                    got = np.asarray(asm.pin_temp_array, dtype=float)[:, 3]
+                    stale.append((i, a, float(np.max(np.abs(got - want))), float(np.max(Tsc) - np.min(Tsc))))
+            try:
+                r._data_close()
+            except (AttributeError, KeyError):
+                pass
     finally:
         shutil.rmtree(d, ignore_errors=True)
+    for i, a, err, spread in stale:
+        env.holds('step %d, assembly %d: pin coolant temperature = weighted mean of the adjacent subchannels at the new plane (1e-9 K)' % (i, a),
+                  err <= 1e-9, key='pin_coolant_temperature_not_of_this_plane')
+    env.holds('fixture: the coolant heats up from plane to plane', all(s_[3] > 1e-6 for s_ in stale))
     env.holds('the two assemblies of the type write their pin temperatures to arrays of their own',
               r.assemblies[0].rodded.pin_temps is not r.assemblies[1].rodded.pin_temps
               and not np.shares_memory(r.assemblies[0].rodded.pin_temps, r.assemblies[1].rodded.pin_temps), key='pin_temperatures_shared_between_assemblies')
